@@ -11,15 +11,16 @@ from . import hirq
 from .core import walk, norm_path
 
 
-def type_closure(crate, targets):
-    """ADT paths whose values can contain one of `targets` (transitively)."""
+def type_closure(crate, targets, stop=("alpha::error::Error", "alpha::error::Poison", "alpha::lexer::Location")):
+    """ADT paths whose values can contain one of `targets` (transitively).
+    Types in `stop` (diagnostic payloads) never propagate containment."""
     clo = set(targets)
     changed = True
     adts = crate.adts
     while changed:
         changed = False
         for p, a in adts.items():
-            if p in clo:
+            if p in clo or p in stop:
                 continue
             for v in a["variants"]:
                 for f in v["fields"]:
@@ -32,18 +33,32 @@ def type_closure(crate, targets):
     return clo
 
 
+STOP_RE = re.compile(r"(?<![\w:])alpha::error::(Poison|Error)(?![\w])")
+
+
 def mentions(tystr, paths):
+    tystr = STOP_RE.sub("()", tystr)
     for p in paths:
         if re.search(r"(?<![\w:])" + re.escape(p) + r"(?![\w])", tystr):
             return True
     return False
 
 
-def derived_lids(body, seeds):
-    """Locals that (transitively) receive a value computed from the seed locals:
-    let-bindings, for-loop variables, closure parameters of iterator adaptors,
-    if-let / match bindings on such values."""
+def derived_lids(body, seeds, seed_nodes=()):
+    """Locals that (transitively) receive a value computed from the seed locals
+    (or from the seed expression nodes): let-bindings, for-loop variables,
+    closure parameters of iterator adaptors, if-let / match bindings."""
     derived = set(seeds)
+
+    def uses(expr):
+        if any(hirq.uses_local(expr, l) for l in derived):
+            return True
+        if seed_nodes:
+            for x in walk(expr):
+                for sn in seed_nodes:
+                    if x is sn:
+                        return True
+        return False
     changed = True
     while changed:
         changed = False
@@ -58,13 +73,10 @@ def derived_lids(body, seeds):
             elif k == "Match":
                 src = n["scrut"]
                 pats = [a["pat"] for a in n["arms"]]
-                if (n.get("msrc") or "").startswith("ForLoopDesugar"):
-                    # scrut = into_iter(expr) / next(&mut iter): bindings of the arms carry elements
-                    pass
             elif k == "MethodCall" and n.get("a"):
                 # iterator adaptors with closures: recv.map(|x| ..)
                 for a in n["a"]:
-                    if a.get("k") == "Closure" and any(hirq.uses_local(n["recv"], l) for l in derived):
+                    if a.get("k") == "Closure" and uses(n["recv"]):
                         for p in a.get("params", []):
                             for name, lid, t in hirq.pat_bindings(p):
                                 if lid not in derived:
@@ -73,7 +85,7 @@ def derived_lids(body, seeds):
                 continue
             if src is None:
                 continue
-            if any(hirq.uses_local(src, l) for l in derived):
+            if uses(src):
                 for p in pats:
                     for name, lid, t in hirq.pat_bindings(p):
                         if lid not in derived:
@@ -196,7 +208,7 @@ def check_impl(F, crate, body, relevant, is_traversal, report, exceptions=None, 
                         for _, l, _ in hirq.pat_bindings(fps[fname]):
                             seeds.add(l)
             tcs = traversal_calls(hir, is_traversal)
-            der = derived_lids(hir, seeds) if seeds else set()
+            der = derived_lids(hir, seeds, field_nodes) if (seeds or field_nodes) else set()
             visited = False
             for c in tcs:
                 for i in call_inputs(c):
@@ -204,29 +216,6 @@ def check_impl(F, crate, body, relevant, is_traversal, report, exceptions=None, 
                         visited = True
                     if any(any(x is fn_ for x in walk(i)) for fn_ in field_nodes):
                         visited = True
-            # for-loops over self.field
-            if not visited and field_nodes:
-                # derive from let/for bindings whose source contains the field node
-                der2 = set()
-                for nde in walk(hir):
-                    src = None
-                    pats = []
-                    if nde.get("k") == "Let" and "init" in nde:
-                        src, pats = nde["init"], [nde["pat"]]
-                    elif nde.get("k") == "Match":
-                        src, pats = nde["scrut"], [a["pat"] for a in nde["arms"]]
-                    elif nde.get("k") == "LetExpr":
-                        src, pats = nde["init"], [nde["pat"]]
-                    if src is not None and any(any(x is fn_ for x in walk(src)) for fn_ in field_nodes):
-                        for p in pats:
-                            for _, l, _ in hirq.pat_bindings(p):
-                                der2.add(l)
-                if der2:
-                    der2 = derived_lids(hir, der2)
-                    for c in tcs:
-                        for i in call_inputs(c):
-                            if any(hirq.uses_local(i, l) for l in der2):
-                                visited = True
             report(key, visited, F.where(body),
                    "field `%s` (%s) of %s never reaches a traversal call" % (fname, fty, impl_self.split("::")[-1]),
                    {"field": fname, "type": fty})
